@@ -6,6 +6,7 @@ import (
 	"encoding/base64"
 	"encoding/json"
 	"fmt"
+	"sort"
 	"strings"
 	"testing"
 	"time"
@@ -113,6 +114,16 @@ func genC15Case() *rapid.Generator[C15Case] {
 		invalidAt := map[int]string{}
 		for k := 0; k < ninv; k++ {
 			invalidAt[rapid.IntRange(0, n-1).Draw(t, "inv_pos")] = rapid.SampledFrom(c15Invalid).Draw(t, "inv_kind")
+		}
+		// two items that name different messages already in the queue, the earlier item the lexically later id:
+		// the error must name the first offending item of the batch (seed C15-14 named the smallest id)
+		if n >= 2 && rapid.IntRange(0, 11).Draw(t, "exists_pair") == 0 {
+			for len(c.Prefill) < 2 {
+				c.Prefill = append(c.Prefill, fmt.Sprintf("pre-%d", len(c.Prefill)))
+			}
+			p1 := rapid.IntRange(0, n-2).Draw(t, "exists_p1")
+			p2 := rapid.IntRange(p1+1, n-1).Draw(t, "exists_p2")
+			invalidAt = map[int]string{p1: "id-exists", p2: "id-exists"}
 		}
 		for i := 0; i < n; i++ {
 			it := C15Item{ID: fmt.Sprintf("it-%d", i)}
@@ -302,7 +313,7 @@ func c15Build(c C15Case) (items []map[string]any, invalid map[int]string) {
 			if len(c.Prefill) == 0 {
 				kind = ""
 			} else {
-				m["id"] = c.Prefill[0]
+				m["id"] = c.Prefill[c15ExistsIdx(c, i)]
 			}
 		}
 		if kind != "" {
@@ -507,6 +518,28 @@ func runC15(c C15Case, _ bool) *fOutcome {
 				firstBad = pos
 			}
 		}
+		// "naming the first offending item": validation runs in phases (per-item fields first, ids against the
+		// queue last), so across kinds the first item of the earliest phase is named. Within one kind the order
+		// is the batch order: when every offending item names a different message that is already in the queue,
+		// the error names the first of them.
+		// (only when the refusal is the duplicate-id one: an earlier phase - route policy, size limits - may
+		// refuse the same batch for a reason the generator did not plant)
+		if resp.ItemIndex != nil && *resp.ItemIndex >= 0 && len(invalid) >= 2 && strings.Contains(resp.Code, "duplicate") {
+			allExists, seen := true, map[int]bool{}
+			for pos, kind := range invalid {
+				if kind != "id-exists" || seen[c15ExistsIdx(c, pos)] {
+					allExists = false
+				}
+				seen[c15ExistsIdx(c, pos)] = true
+			}
+			if allExists {
+				out.Labels["several-existing-ids"] = true
+				if *resp.ItemIndex != firstBad {
+					out.Failure = ffail("C15", "item-index-not-first-offending", 0, "items %v name messages already in the queue; item_index is %d, the first offending item is %d; %s", keysOf(invalid), *resp.ItemIndex, firstBad, desc)
+					return out
+				}
+			}
+		}
 		if len(c.Items) >= 3 && firstBad >= 1 {
 			out.NonTriv = true
 		}
@@ -540,4 +573,22 @@ func TestProp_C05_PublishTarget(t *testing.T) {
 		out.NonTriv = out.Labels["invalid-target-case"]
 		return out
 	})
+}
+
+// c15ExistsIdx: which prefilled message an "id-exists" item at position pos names - earlier items name
+// lexically later ids, so that batch order and id order disagree.
+func c15ExistsIdx(c C15Case, pos int) int {
+	if len(c.Prefill) == 0 {
+		return 0
+	}
+	return len(c.Prefill) - 1 - pos%len(c.Prefill)
+}
+
+func keysOf(m map[int]string) []int {
+	var out []int
+	for k := range m {
+		out = append(out, k)
+	}
+	sort.Ints(out)
+	return out
 }
